@@ -38,6 +38,7 @@ Sweep: C18.5 the reader walks a whole batch (loop never cut short), skips an eve
 Fifth round: C18.3 every input of the timestamp merge of the server-trace archiver is sorted when it is merged; C18.5 the trace loops read the snapshots before they register the live watch.
 Sixth round: C18.2 the archivers keep nothing in module-level state between runs.
 Seventh round: C18.4 download_batch (a prefix query on event names) is used on trace tables only; C18.5 every row of a finished snapshot is loaded into the history, whatever live records exist.
+Eighth round: C18.5 the reader skips the snapshots only while the instance is scheduled (no other condition on consulting the history).
 Does NOT decide retrievability from the produced snapshot nor every crash cut
 beyond the upload-before-delete ordering.
 """
